@@ -34,6 +34,25 @@ def rand_op_spec(rng, regs_q, n_c, allow_new=True):
     return {"k": "CNOT", "r": [a, b], "c": None}
 
 
+def mk_op(spec, rng):
+    """the operation of a spec; wrappers carry, now and then, ONE noise model for the whole wrapper (or one per gate) -
+    unwrapping then creates an extra carrier operation for it on the wrapper's register"""
+    if spec["k"] == "OneQubitGateWrapper" and rng.random() < 0.5:
+        import graphiq.noise.noise_models as nm
+        r = rng.random()
+        if r < 0.4:
+            noise = nm.DepolarizingNoise(0.1)
+        elif r < 0.7:
+            noise = nm.PauliError("X")
+        elif r < 0.85:
+            noise = nm.DepolarizingNoise(0.1)
+            noise.noise_parameters["After gate"] = False
+        else:
+            noise = [nm.NoNoise() for _ in spec["w"]]
+        return cz.build_op(spec, noise=noise)
+    return cz.build_op(spec)
+
+
 def quantum_edges(circuit):
     return [e for e in circuit.dag.edges(keys=True) if circuit.dag.edges[e]["reg_type"] in ("e", "p")]
 
@@ -77,7 +96,7 @@ def history(tid, rng, circuit, steps, meta):
                     cnt = circuit.n_emitters if t == "e" else circuit.n_photons
                     if cnt < 4:
                         spec = {"k": rng.choice(ONEQ), "r": [[t, cnt]], "c": None}
-                op = cz.build_op(spec)
+                op = mk_op(spec, rng)
                 e = {"ev": "add", "op": cz.op_content(op)}
                 circuit.add(op)
             elif r < 0.29:
@@ -112,7 +131,7 @@ def history(tid, rng, circuit, steps, meta):
                     # the edge list in either order: the operation knows its registers, the list is "the edges relevant
                     # for this operation"
                     edges = [e1, e2] if rng.random() < 0.5 else [e2, e1]
-                op = cz.build_op(spec)
+                op = mk_op(spec, rng)
                 e = {"ev": "insert_at", "op": cz.op_content(op),
                      "edges": [[cz._nid(x[0]), cz._nid(x[1]), str(x[2])] for x in edges]}
                 circuit.insert_at(op, edges)
@@ -134,7 +153,7 @@ def history(tid, rng, circuit, steps, meta):
                     spec = {"k": rng.choice(cz.CCTRL), "r": regs, "c": old.c_registers[0]}
                 else:
                     spec = {"k": "MeasurementZ", "r": regs, "c": old.c_registers[0]}
-                op = cz.build_op(spec)
+                op = mk_op(spec, rng)
                 if rng.random() < 0.3:
                     op.add_labels("Fixed")
                 e = {"ev": "replace", "id": cz._nid(n), "op": cz.op_content(op)}
